@@ -1774,7 +1774,7 @@ func show(t *gen.Tree) string {
 
 var subFault = runlog.Register(&runlog.Sub[Case]{
 	Name: "unpack-fault",
-	Rule: "random struct type (reflect.StructOf: all primitive kinds, named variants, durations, regexps, pointers, slices, arrays, maps, nested/inline structs, dotted and derived config names, two catalogue structs with Validate) and a valid value of it; in 2/3 of the cases a third of the config names and map keys are replaced by names with format verbs (%, %d, %!v(x)), quotes, braces, blanks, tabs, backslashes, '$' and non-ASCII letters. value -> NewFrom gives a valid (config, type) pair (checked: the pair unpacks). ONE fault at a place chosen from the type descriptor: unparsable string (incl. texts with % that the reason echoes), out-of-range number, object/list for a primitive, primitive for an object, unresolvable reference (VarExp: missing variable, index out of range, self cycle, cycles of length 2 and 3 through auxiliary settings, reference into a cycle, path through a primitive, chain ending in a missing variable, ${x:?message}; plain or inside a splice; read with a resolver that knows nothing or without resolver), failing validate tag, required tag on a removed/nil setting, wrong fixed-array length, removed struct setting whose default fails Validate, a nonzero/required tag on a list of objects that loses all its elements (Remove one by one, or an empty list in the data), a present struct section one setting of which makes its Validate() fail (the section, or that setting, must be named); when a fault reported for a collection as a whole (array length, emptied list, struct Validate) is possible it is chosen in 1 of 4 cases. Injected through Set*/SetChild/Remove (the Set* call naming the same source, another source or none) or by editing the generic dump and normalising again. DELIVERY (40% of the non-reference faults): the faulted value, or a collection 1..n levels above it with the fault inside, is replaced by a ${...} expression that evaluates to it at read time: reference to a literal elsewhere in the configuration, value of an Env configuration, text returned by a resolver (parse.DefaultConfig, EnvConfig or IgnoreCommas), text spliced from 1-4 pieces each of which is literal text, a resolver variable, an Env value, a ${missing:default} or a reference to a string literal; the text is rendered in JSON, single-quoted, bare-word or comma-list style and checked to parse back into the same data. Optionally merged below a key / into a list / appended / prepended first, into a configuration loaded from the same or another source; with and without MetaData (source names incl. %, quotes, braces). RELOCATION (40% of the literal faults): before the fault is read, the loaded section that holds it - the node 0..n levels above the faulted setting, level 0 (the faulted collection itself) in half of the cases where that is a container - is obtained with Child (a list element by numeric segment or by idx, and attached the same way) or captured in a *ucfg.Config field of a struct its parent is unpacked into, optionally attached to an unrelated configuration first (SetChild without MetaData), and then (a) put in place of the valid section of a second configuration of the same shape loaded from the same source, another source or none - by SetChild without MetaData, by SetChild naming a third source, or by removing the valid section and merging the child in below its path - after which the fault is read through the second configuration AND through the configuration the section was taken from, or (b) attached to an unrelated configuration (SetChild with or without MetaData) and read through the configuration it was taken from. Moving a section does not change where its settings were loaded from: path and source are demanded as without the move (for the section a SetChild call with MetaData attached, the source of that call is accepted as well; for missing settings any source involved). HISTORY (a third of the cases are meant to get one: three quarters of those put the struct inside a list of 1-4 objects or a list of such lists and the place of the fault is chosen below a list if there is one; it exists for literal faults whose place has a list on its path or whose configuration was merged into a list - about 10% of all cases; exclusive with RELOCATION): before the fault is read, 1-3 calls edit the lists the faulted setting lies in or is an element of (any list on its path but fixed-size arrays, outermost to innermost): Remove of an element before or behind it, Merge with PrependValues / AppendValues of one more element, Merge (default policy) of a list that covers the elements before it, Set*/SetChild behind the end of the list (also one position further, which pads the list), Set*/SetChild over another element; elements addressed by numeric segment, by (name, idx) or through the Child handle of the list (\"\", idx), merges made at the root of the configuration that is read or into the Child handle of the list; the editing calls name the source of the configuration, another source or none; added elements are copies of valid elements (none are added when the fault is a tag that copies would fail as well). For a configuration that was merged into a list (move=list/append/prepend) the element before it may also be removed from the outer list after its handle was obtained. The same history is applied to the valid pair first (it must stay valid). The path demanded is the CURRENT position of the setting (indices recomputed by a model of the edits), the source is still the one it was loaded from. SPELLING (40% of all cases): the generic data the configuration is normalised from (the dump of the valid configuration; for inject=set the fault is then applied through Set*/Remove) is re-written with PathSep in mind: every object and list is, by a decision stored in the case, written nested, or with all its children under dotted keys of the parent (\"a.b.c\", list elements by numeric segments \"l.0.x\"), or piecewise (some children in a nested literal, the others under dotted keys; list elements left out of a literal are nil there); decisions compose over all levels, so keys are fully or partly dotted and objects and lists on the way are implied by dotted keys only. LAYERS (20%): the entries of the (spelled) top-level input are distributed over two inputs that are loaded one after the other (NewFrom, then Merge with the same options; entries contributing to the same list stay together). Neither changes the content: path and source are demanded as computed from the type descriptor, and whenever the data was re-spelled or layered the naming found in the message (path and source) must be IDENTICAL to what the same case reports when its data is written nested and loaded at once. Unpack - and, for half of the cases where a typed getter can not succeed on the faulted setting (Bool/Int/Uint/Float/String by target kind, Child for objects; list elements addressed by numeric segment or by idx), that getter - must return a ucfg.Error with Reason and Class whose message ENDS in accessing|in field '<path>'<source> with the full dotted path computed from the descriptor and <source> = (source:'<name>') of the call that loaded the faulted value. The source is demanded for values loaded with MetaData (also after merges into a configuration from another source, and for the ${...} setting itself when it expands to the faulted value); it is optional for missing settings, for values stored by Set* without MetaData and for elements inside a collection parsed from delivered text. For a reference to a literal / Env value both the setting that was read and the setting holding the literal (each with its own source) are accepted. Non-trivial: path depth >= 2, or below list/map/pointer/inline field, or moved by a merge, or delivered through an expression, or read after a relocation of its section or after a history of list edits. Distinct: hash of the case.",
+	Rule: "random struct type (reflect.StructOf: all primitive kinds, named variants, durations, regexps, pointers, slices, arrays, maps, nested/inline structs, dotted and derived config names, two catalogue structs with Validate) and a valid value of it; in 2/3 of the cases a third of the config names and map keys are replaced by names with format verbs (%, %d, %!v(x)), quotes, braces, blanks, tabs, backslashes, '$' and non-ASCII letters. value -> NewFrom gives a valid (config, type) pair (checked: the pair unpacks). ONE fault at a place chosen from the type descriptor: unparsable string (incl. texts with % that the reason echoes), out-of-range number, object/list for a primitive, primitive for an object, unresolvable reference (VarExp: missing variable, index out of range, self cycle, cycles of length 2 and 3 through auxiliary settings, reference into a cycle, path through a primitive, chain ending in a missing variable, ${x:?message}; plain or inside a splice; read with a resolver that knows nothing or without resolver), failing validate tag, required tag on a removed/nil setting, wrong fixed-array length, removed struct setting whose default fails Validate, a nonzero/required tag on a list of objects that loses all its elements (Remove one by one, or an empty list in the data), a present struct section one setting of which makes its Validate() fail (the section, or that setting, must be named); when a fault reported for a collection as a whole (array length, emptied list, struct Validate) is possible it is chosen in 1 of 4 cases. Injected through Set*/SetChild/Remove (the Set* call naming the same source, another source or none) or by editing the generic dump and normalising again. DELIVERY (40% of the non-reference faults): the faulted value, or a collection 1..n levels above it with the fault inside, is replaced by a ${...} expression that evaluates to it at read time: reference to a literal elsewhere in the configuration, value of an Env configuration, text returned by a resolver (parse.DefaultConfig, EnvConfig or IgnoreCommas), text spliced from 1-4 pieces each of which is literal text, a resolver variable, an Env value, a ${missing:default} or a reference to a string literal; the text is rendered in JSON, single-quoted, bare-word or comma-list style and checked to parse back into the same data. Optionally merged below a key / into a list / appended / prepended first, into a configuration loaded from the same or another source; with and without MetaData (source names incl. %, quotes, braces). RELOCATION (40% of the literal faults): before the fault is read, the loaded section that holds it - the node 0..n levels above the faulted setting, level 0 (the faulted collection itself) in half of the cases where that is a container - is obtained with Child (a list element by numeric segment or by idx, and attached the same way) or captured in a *ucfg.Config field of a struct its parent is unpacked into, optionally attached to an unrelated configuration first (SetChild without MetaData), and then (a) put in place of the valid section of a second configuration of the same shape loaded from the same source, another source or none - by SetChild without MetaData, by SetChild naming a third source, or by removing the valid section and merging the child in below its path - after which the fault is read through the second configuration AND through the configuration the section was taken from, or (b) attached to an unrelated configuration (SetChild with or without MetaData) and read through the configuration it was taken from. Moving a section does not change where its settings were loaded from: path and source are demanded as without the move (for the section a SetChild call with MetaData attached, the source of that call is accepted as well; for missing settings any source involved). HISTORY (a third of the cases are meant to get one: three quarters of those put the struct inside a list of 1-4 objects or a list of such lists and the place of the fault is chosen below a list if there is one; it exists for literal faults whose place has a list on its path or whose configuration was merged into a list - about 10% of all cases; exclusive with RELOCATION): before the fault is read, 1-3 calls edit the lists the faulted setting lies in or is an element of (any list on its path but fixed-size arrays, outermost to innermost): Remove of an element before or behind it, Merge with PrependValues / AppendValues of one more element, Merge (default policy) of a list that covers the elements before it, Set*/SetChild behind the end of the list (also one position further, which pads the list), Set*/SetChild over another element; elements addressed by numeric segment, by (name, idx) or through the Child handle of the list (\"\", idx), merges made at the root of the configuration that is read or into the Child handle of the list; the editing calls name the source of the configuration, another source or none; added elements are copies of valid elements (none are added when the fault is a tag that copies would fail as well). For a configuration that was merged into a list (move=list/append/prepend) the element before it may also be removed from the outer list after its handle was obtained. The same history is applied to the valid pair first (it must stay valid). The path demanded is the CURRENT position of the setting (indices recomputed by a model of the edits), the source is still the one it was loaded from. SPELLING (40% of all cases): the generic data the configuration is normalised from (the dump of the valid configuration; for inject=set the fault is then applied through Set*/Remove) is re-written with PathSep in mind: every object and list is, by a decision stored in the case, written nested, or with all its children under dotted keys of the parent (\"a.b.c\", list elements by numeric segments \"l.0.x\"), or piecewise (some children in a nested literal, the others under dotted keys; list elements left out of a literal are nil there); decisions compose over all levels, so keys are fully or partly dotted and objects and lists on the way are implied by dotted keys only. LAYERS (20%): the entries of the (spelled) top-level input are distributed over two inputs that are loaded one after the other (NewFrom, then Merge with the same options; entries contributing to the same list stay together). OPTIONS (40% of all cases): Option values are treated as values. With reuse (4 of 5 of these) ONE MetaData Option value per source name is created for the case and passed to every call naming that source - the load of the valid pair, the load of the faulted configuration, Set*, merges, history edits, relocation and the bystanders - instead of a fresh one per call; in half of them every call naming a source S gets two MetaData options ([MetaData{decoy} (reused), MetaData{S}] or [MetaData{} , MetaData{S}]); and 0-3 BYSTANDER configurations (one out-of-range setting each) are loaded - before anything else, between the valid and the faulted build, or after the faulted configuration got its final shape - by NewFrom, Merge or SetInt with 1-3 MetaData options in any order drawn from the reused values (own source of the case, decoy, Set*/outer/history/relocation sources), fresh named ones and the empty MetaData{}. None of this changes where a setting was loaded from: the source demanded for the fault of the case is unchanged, and after it was read every bystander must still name its setting with the source of the LAST MetaData option of the call that loaded it (none if that one is empty; options apply in order - the behaviour of the library, asserted). Neither changes the content: path and source are demanded as computed from the type descriptor, and whenever the data was re-spelled or layered the naming found in the message (path and source) must be IDENTICAL to what the same case reports when its data is written nested and loaded at once. Unpack - and, for half of the cases where a typed getter can not succeed on the faulted setting (Bool/Int/Uint/Float/String by target kind, Child for objects; list elements addressed by numeric segment or by idx), that getter - must return a ucfg.Error with Reason and Class whose message ENDS in accessing|in field '<path>'<source> with the full dotted path computed from the descriptor and <source> = (source:'<name>') of the call that loaded the faulted value. The source is demanded for values loaded with MetaData (also after merges into a configuration from another source, and for the ${...} setting itself when it expands to the faulted value); it is optional for missing settings, for values stored by Set* without MetaData and for elements inside a collection parsed from delivered text. For a reference to a literal / Env value both the setting that was read and the setting holding the literal (each with its own source) are accepted. Non-trivial: path depth >= 2, or below list/map/pointer/inline field, or moved by a merge, or delivered through an expression, or read after a relocation of its section or after a history of list edits (option reuse alone does not make a case non-trivial). Distinct: hash of the case.",
 	Gen:  genCase,
 	Run:  runCase,
 })
